@@ -150,6 +150,13 @@ SWEEP = {
     'unique': lambda f: f.unique(),
     'isin': lambda f: f.isin((1, 2, 'x')),
     'clip': lambda f: f.clip(lower=0, upper=2),
+    # Frame-valued bounds whose OWN block layout differs from the target's: one wide 2-D block, all 1-D columns, and a (1, rest) split
+    'clip_lower_frame_one_block': lambda f: f.clip(lower=sf.Frame(np.tile(np.arange(len(f.columns)) - 1.0, (len(f.index), 1)), index=f.index, columns=f.columns)),
+    'clip_upper_frame_columns': lambda f: f.clip(upper=sf.Frame.from_items(((c, np.full(len(f.index), j)) for j, c in enumerate(f.columns)), index=f.index)),
+    'clip_both_frame_split': lambda f: f.clip(lower=sf.Frame.from_concat((sf.Frame(np.full((len(f.index), 1), -1), index=f.index, columns=f.columns[:1]),
+                                                                         sf.Frame(np.tile(np.arange(1, len(f.columns)), (len(f.index), 1)), index=f.index, columns=f.columns[1:])), axis=1),
+                                             upper=sf.Frame(np.tile(np.arange(len(f.columns)) + 2, (len(f.index), 1)), index=f.index, columns=f.columns)),
+    'clip_lower_series_cols': lambda f: f.clip(lower=sf.Series(np.arange(len(f.columns)), index=f.columns), axis=1),
     'set_index0': lambda f: f.set_index(f.columns[0]),
     'set_index0_drop': lambda f: f.set_index(f.columns[0], drop=True),
     'unset_index': lambda f: f.unset_index(),
